@@ -290,6 +290,12 @@ def atom_base(fl, target):
 
 
 def run(ix, R):
+    _run(ix, R)
+    from rules.common import memo_obligation
+    memo_obligation(ix, R, 'M.memo', ['taurex/binning/'], 'the binners')
+
+
+def _run(ix, R):
     flux_init(ix, R)
     with R.guard('2', 'ALG', FB + '::FluxBinner.bindown', 'FluxBinner.bindown'):
         flux_bindown(ix, R)
